@@ -53,4 +53,60 @@ def C14(tier, seed):
     }
 
 
-REGISTRY = {"C07": C07, "C14": C14, "C15": C15}
+def C13(tier, seed):
+    box = 4 if tier == "quick" else 6
+    st_box = Stage("box", ("Gen_Interval", "Gen_Interval.cfg"), ("Trace_Interval", "Trace_Interval.cfg"),
+                   mc=[iv_mc(tier)], env={"FAMILY": "box", "IV_BOX": box},
+                   required=["C13.scalar_wellformed", "C13.scalar_kind", "C13.scalar_sound", "C13.scalar_tight",
+                             "C13.binary_panic", "C13.binary_wellformed", "C13.binary_kind", "C13.binary_sound",
+                             "C13.binary_tight"])
+    st_rel = Stage("rel", ("Gen_Interval", "Gen_Interval.cfg"), ("Trace_Interval", "Trace_Interval.cfg"),
+                   env={"FAMILY": "rel"},
+                   required=["C13.relative_panic", "C13.relative_wellformed", "C13.relative_sound", "C13.relative_tight"])
+    return {
+        "stages": [st_box, st_rel],
+        "exhaustive": True,
+        "rule": "every interval of the three kinds over the integer box -BOX..BOX (BOX=4 quick, 6 thorough) x every scalar "
+                "of the box x {+,-,*,/,neg} (i32 truncating division; f64 exact division by +-1,2,4), every ordered pair "
+                "for interval+interval / interval-interval (incompatible one-sided pairs must panic), relative_to over "
+                "all pairs on the dyadic grid {0,1/2,1,2,4}; soundness / tightness / kind judged by TLC over a window of members.",
+        "assumptions": TLC_TRUST + ["membership is quantified over a finite window of the carrier wide enough for the box",
+                                   "floats restricted to exactly representable values (no rounding in the judged operations)"],
+    }
+
+
+def C18(tier, seed):
+    st = Stage("conf", ("Gen_Confidence", "Gen_Confidence.cfg"), ("Trace_Confidence", "Trace_Confidence.cfg"),
+               mc=[("MC_Confidence", "MC_Confidence.cfg", {}, 1), ("MC_BigNum", "MC_BigNum.cfg", {}, 1)],
+               env={"RANDOM_LEVELS": 0 if tier == "quick" else 2000},
+               required=["C18.make_outcome", "C18.make_value", "C18.make_error", "C18.make_rejects_fallible",
+                         "C18.make_rejects_panic", "C18.level", "C18.percent", "C18.kind_string", "C18.predicates",
+                         "C18.flipped", "C18.default", "C18.partial_cmp", "C18.operators", "C18.eq"])
+    return {
+        "stages": [st],
+        "exhaustive": tier == "quick",
+        "rule": "17 level class representatives (NaN, +-inf, negatives, +-0, smallest subnormal, 1e-300, interior values, "
+                "pred(1), 1, succ(1), 2) x 6 construction paths (f32 path sees the converted value); accessors of every valid "
+                "(kind, level); all ordered pairs x 3x3 kinds for ordering/equality; thorough adds 2000 random 31-bit levels.",
+        "assumptions": TLC_TRUST + ["constructing the public enum variants directly bypasses the constructors by design and is outside the property"],
+    }
+
+
+def C19(tier, seed):
+    st_disp = iv_chain(tier, ["C19.display"])
+    st_apx = Stage("approx", ("Gen_Approx", "Gen_Approx.cfg"), ("Trace_Interval", "Trace_Interval.cfg"),
+                   env={"FAMILY": "chain"},
+                   required=["C19.kind_aware", "C19.boundwise", "C19.symmetric", "C19.reflexive",
+                             "C19.implied_by_eq", "C19.abs_exact", "C19.only_low_near", "C19.only_high_near"])
+    return {
+        "stages": [st_disp, st_apx],
+        "exhaustive": True,
+        "rule": "9 kind combinations x independent displacement of each bound (0..3 steps) x tolerances below/at/above each "
+                "displacement, for abs_diff_eq / relative_eq / ulps_eq; the interval-level result must equal the kind-aware "
+                "conjunction of the element type's own per-bound results (logged), which TLC re-evaluates exactly for the absolute mode; "
+                "Display of every interval over the chain for 9 element types.",
+        "assumptions": TLC_TRUST + ["the element-level predicates of the approx crate are the reference for relative / ULP modes"],
+    }
+
+
+REGISTRY = {"C19": C19, "C18": C18, "C13": C13, "C07": C07, "C14": C14, "C15": C15}
